@@ -221,6 +221,15 @@ def special_programs():
     out.append('')
     out.append('\n\n  \n')
     out.append('주석만 있는 파일 abc')
+    # file sizes around the usual buffer sizes, a 3-byte character across each boundary
+    for size, deltas in ((8192, (-1, 0, 1)), (65536, (1,))):
+        for delta in deltas:
+            body = '형. ' * ((size + delta) // 5)
+            pad = (size + delta) - len(body.encode('utf-8'))
+            out.append(body + 'x' * pad + ' 형... 항.')
+    # size ladders (hv/scale.py) through the real binary
+    from . import scale
+    out += [scale.deep_program(1, 65, 65), scale.many_labels(65, 7), scale.straight(300), scale.loop_program(150) + ' 항.']
     # beyond the specified range: only "no panic" is checked
     out.append('%s 항.' % big(65536, 65536))
     return out
@@ -261,6 +270,10 @@ def run_c13(tier):
     st = Stats()
     n = 3 if tier == 'quick' else 4
     contents = [b''.join(t) for k in range(0, n + 1) for t in itertools.product(FRAGS, repeat=k)]
+    # invalid bytes far into a long file (after one / several read buffers)
+    for size in (8191, 65537):
+        contents.append(b'\xed\x98\x95. ' * (size // 5) + b'x' * (size % 5) + b'\xff' + b' \xed\x98\x95.')
+        contents.append(b'\xed\x98\x95. ' * (size // 5) + b'x' * (size % 5) + b'\xed\x98')
     contents = list(dict.fromkeys(contents))
     tasks = [('names',)]
     sp = special_programs()
